@@ -435,14 +435,16 @@ fn eval_format(which: usize, list: &[usize], header: bool, delim: usize, prec: u
         0 => vec![6; names.len()],
         1 => vec![3; names.len()],
         2 => (0..names.len()).map(|i| (i * 2 + 1) % 9).collect(),
-        _ => vec![18; names.len()],
+        3 => vec![18; names.len()],
+        _ => vec![0; names.len()],
     };
     let joined = names.join(",");
     let pj = match prec {
         0 => String::new(),
         1 => "3".to_string(),
         2 => precs.iter().map(|p| p.to_string()).collect::<Vec<_>>().join(","),
-        _ => "18".to_string(),
+        3 => "18".to_string(),
+        _ => "0".to_string(),
     };
     let mut a: Vec<&str> = vec!["stat", "-s", &joined];
     if header {
@@ -462,7 +464,7 @@ fn eval_format(which: usize, list: &[usize], header: bool, delim: usize, prec: u
     };
     let o = run_sfs(&a, Stdin::Bytes(&bytes), scratch);
     let case = || J::obj([("kind", J::s("c06-format")), ("which", J::u(which)), ("list", J::usizes(list)), ("header", J::Bool(header)), ("delimiter", J::u(delim)), ("precision", J::u(prec)), ("npy_in", J::Bool(npy_in))]);
-    let fail = |w: String| Some((format!("C06|cli|report-format|{}{}", if header { "header," } else { "" }, ["default-precision", "one-precision", "precision-list", "precision-18"][prec]), format!("sfs {} on shape {:?} ({}): {w}", a.join(" "), x.shape, if npy_in { "npy" } else { "text" }), case()));
+    let fail = |w: String| Some((format!("C06|cli|report-format|{}{}", if header { "header," } else { "" }, ["default-precision", "one-precision", "precision-list", "precision-18", "precision-0"][prec]), format!("sfs {} on shape {:?} ({}): {w}", a.join(" "), x.shape, if npy_in { "npy" } else { "text" }), case()));
     if !o.ok() {
         return fail(format!("{} {}", o.status_str(), o.stderr_str().trim()));
     }
@@ -766,7 +768,7 @@ pub fn run(tier: Tier) -> i32 {
             for l in lists {
                 for header in [false, true] {
                     for delim in 0..4usize {
-                        for prec in 0..4usize {
+                        for prec in 0..5usize {
                             for npy_in in [false, true] {
                                 if !tier.thorough() && npy_in && (delim == 1 || delim == 2) {
                                     continue;
@@ -787,7 +789,7 @@ pub fn run(tier: Tier) -> i32 {
             name: "cli: report format (statistic lists x header x delimiter x precisions x input format)".into(),
             evaluations: fj.len() as u64,
             nontrivial: fj.len() as u64,
-            note: "a 6-entry and a 3x3 spectrum; every ordered list of one and two statistics (repeats included), the ordered triples of a third of the pairs (thorough: all), and all statistics in both orders x {no header, -H} x delimiter {default, ';', tab, a 3-byte arrow} x precision {default, one value, one per statistic, 18 decimals} x input {text, npy}: value i is statistic i at precision i, the header is the join of the single-statistic headers".into(),
+            note: "a 6-entry and a 3x3 spectrum; every ordered list of one and two statistics (repeats included), the ordered triples of a third of the pairs (thorough: all), and all statistics in both orders x {no header, -H} x delimiter {default, ';', tab, a 3-byte arrow} x precision {default, one value, one per statistic, 18 decimals, none} x input {text, npy}: value i is statistic i at precision i, the header is the join of the single-statistic headers".into(),
             exhaustive: true,
             extra: vec![],
         });
